@@ -3,11 +3,14 @@
     Proved: insertion never yields more than 8192 bytes whatever the size of the packet it started
     from (the size test is guarded against underflow), and when the insertion core reports an error
     (too large, second question, 65535 records) the object is exactly as it was - the count is checked
-    before any byte moves.  PARTIAL: atomicity of the other failing operations (invalid names, deleted
+    before any byte moves.  For a freshly parsed packet (C10_failed_insert_keeps_message): when
+    insert_rr reports any error the object holds exactly the decompressed form of the packet, which
+    the parser accepts and which reads as the same question and records; the cursor is untouched.
+    PARTIAL: atomicity of the other failing operations (invalid names, deleted
     cursors, malformed text, rename overflow) is decided each run by the correspondence and the
     before/after oracle. *)
 From DV Require Import Model.Base Model.NameCheck Model.Parser Model.Header Model.Readers Model.Uncompress
-  Model.Mutate Proofs.Hoare Proofs.HeaderBits Proofs.InsertLemmas.
+  Model.Mutate Spec.PlainSpec Proofs.Hoare Proofs.HeaderBits Proofs.InsertLemmas Proofs.PlainWf Proofs.InsertFail.
 
 Theorem C10_insert_bound : forall sec rr s s',
   m_insert_rr sec rr s = (s', Ok tt) -> (N.of_nat (length (pp_packet (fst s'))) <= 8192)%N.
@@ -23,3 +26,13 @@ Theorem C10_second_question_refused : forall p c,
   be16_at p 4 612 = Ok c -> (1 <= c)%N -> rrcount_inc p SQuestion = Err InvalidPacket.
 Proof. exact rrcount_inc_second_question. Qed.
 Print Assumptions C10_second_question_refused.
+
+Theorem C10_failed_insert_keeps_message : forall p v sec rr it s' e, bytes_ok p -> parse p = Ok v ->
+  m_insert_rr sec rr (v, it) = (s', Err e) ->
+  exists q v' qls qt lxa lxn lxr lxa' lxn' lxr',
+    pp_packet (fst s') = q /\ snd s' = it /\ uncompress p = Ok q /\ parse q = Ok v' /\
+    reading p qls qt lxa lxn lxr /\ reading q qls qt lxa' lxn' lxr' /\
+    map plain_record lxa' = map plain_record lxa /\ map plain_record lxn' = map plain_record lxn /\
+    map plain_record lxr' = map plain_record lxr.
+Proof. exact failed_insert_message. Qed.
+Print Assumptions C10_failed_insert_keeps_message.
